@@ -2,7 +2,9 @@
    ty = 0 (Rat, numbers (num den)) | 1 (Fp, residues)
    (14 1 ty (x ..)) mean | (14 2 ty (x ..)) variance | (14 3 ty (n0 n1) rows fd) covariance of
    the samples-by-features data `rows` through covariance_row_features, covariance_column_features
-   and covariance(tensor named (n0 n1), fd) | (14 5 ty (x ..)) softmax | (14 6 ty p r) f1_score"""
+   and covariance(tensor named (n0 n1), fd) | (14 5 ty (x ..)) softmax | (14 6 ty p r) f1_score |
+   (14 7 ((m e) ..)) float oracle: softmax over the f64 values m*10^e must have the same length, be
+   finite and non-negative, sum to one within 1e-9 and preserve order (expected (1 1 1 1))"""
 import itertools
 from tools.vlib import sx
 
@@ -46,7 +48,7 @@ def gen(tier, rng):
                     continue
                 for vals in itertools.product(ALPHA, repeat=n):
                     yield sx([14, op, ty, [num(ty, v) for v in vals]])
-            for _ in range(150 if quick else 6000):
+            for _ in range(150 if quick else 3000):
                 n = rng.choice([1, 2, 3, 4, 5, 6, 7, 9, 12, 17])
                 yield sx([14, op, ty, [rnd(ty, rng, True) for _ in range(n)]])
         # longer lists: the count is built by repeated +1
@@ -64,14 +66,14 @@ def gen(tier, rng):
             if cells <= (6 if quick else 9):
                 it = itertools.product(ALPHA, repeat=cells)
             else:
-                it = (tuple(rng.choice(ALPHA) for _ in range(cells)) for _ in range(150 if quick else 3000))
+                it = (tuple(rng.choice(ALPHA) for _ in range(cells)) for _ in range(150 if quick else 1500))
             k = 0
             for vals in it:
                 rows = [[num(0, vals[i * c + j]) for j in range(c)] for i in range(r)]
                 k += 1
                 yield cov_case(0, rows, (0, 1), k % 2)
     # random values and sizes beyond 5 x 4, names in other orders, foreign feature name, Fp
-    for _ in range(400 if quick else 20000):
+    for _ in range(400 if quick else 8000):
         ty = rng.choice([0, 0, 1])
         r = rng.choice([1, 2, 3, 4, 5, 6, 7])
         c = rng.choice([1, 2, 3, 4, 5, 6])
@@ -94,12 +96,32 @@ def gen(tier, rng):
         for n in range(1, 5 if quick else 7):
             for vals in itertools.product((-1, 0, 2, 3), repeat=n):
                 yield sx([14, 5, ty, [num(ty, v) for v in vals]])
-        for _ in range(400 if quick else 15000):
+        for _ in range(400 if quick else 6000):
             n = rng.choice([1, 2, 3, 4, 5, 6, 8, 11])
             vals = [rnd(ty, rng, True) for _ in range(n)]
             if rng.random() < 0.3 and n > 1:      # repeated maximum / repeated values
                 vals[rng.randrange(n)] = vals[rng.randrange(n)]
             yield sx([14, 5, ty, vals])
+
+    # ---- float oracle (softmax stability): large magnitudes, mixed signs, huge spreads
+    for _ in range(400 if quick else 8000):
+        n = rng.choice([1, 2, 3, 4, 6, 9, 12])
+        style = rng.random()
+        vals = []
+        for _ in range(n):
+            if style < 0.3:
+                vals.append([rng.randrange(-999, 1000), rng.choice([0, 1, 2, 3])])        # up to 1e6
+            elif style < 0.6:
+                vals.append([rng.randrange(-999, 1000), rng.choice([-3, 0, 2, 5, 20, 100, 300, 305])])
+            else:
+                vals.append([rng.choice([-1, 1]) * rng.randrange(1, 180), rng.choice([300, 305, 306, -300, 0])])
+        if n > 1 and rng.random() < 0.3:
+            vals[rng.randrange(n)] = vals[rng.randrange(n)]
+        yield sx([14, 7, vals])
+    yield sx([14, 7, []])
+    yield sx([14, 7, [[710, 0], [0, 0]]])          # exp(710) overflows without the shift
+    yield sx([14, 7, [[-745, 0], [-746, 0], [-800, 0]]])
+    yield sx([14, 7, [[17, 307], [-17, 307]]])
 
     # ---- f1
     for ty in (0, 1):
@@ -116,6 +138,8 @@ def nontrivial(case, model_out):
     samples whose tensor route was accepted / a softmax of at least two values / any f1"""
     from tools.vlib import parse_sx
     t = parse_sx(case)
+    if t[1] == 7:
+        return len(t[2]) >= 2
     if t[1] in (1, 2, 5):
         return len(t[3]) >= 2
     if t[1] == 3:
